@@ -230,9 +230,20 @@ func pairAPI(x *hx.Ctx, k int) {
 	for i := 0; i < k; i++ {
 		X, Y = append(X, s.Point().Pick(r)), append(Y, s.Point().Pick(r))
 	}
+	Xc, Yc := cp(X), cp(Y)
+	X0 := make([]kyber.Point, k)
+	Y0 := make([]kyber.Point, k)
+	for i := range X {
+		X0[i], Y0[i] = X[i].Clone(), Y[i].Clone()
+	}
 	Xb, Yb, prover := shuffle.Shuffle(s, G, H, X, Y, r)
 	prf, err := proof.HashProve(s, "PairShuffle", prover)
 	x.NoErr("HashProve", err)
+	okIn := true
+	for i := range X {
+		okIn = okIn && X[i] == Xc[i] && Y[i] == Yc[i] && X[i].Equal(X0[i]) && Y[i].Equal(Y0[i])
+	}
+	x.Require("Shuffle and its prover leave the input lists unchanged (same objects, same values)", okIn)
 	x.NoErr("shuffle.Shuffle output verifies", proof.HashVerify(s, "PairShuffle", shuffle.Verifier(s, G, H, X, Y, Xb, Yb), prf))
 	Xb[0] = s.Point().Add(Xb[0], G)
 	x.Err("tampered output", proof.HashVerify(s, "PairShuffle", shuffle.Verifier(s, G, H, X, Y, Xb, Yb), prf))
